@@ -29,6 +29,7 @@ import (
 	"runtime"
 	"sort"
 	"strings"
+	"sync/atomic"
 	"sync"
 	"time"
 
@@ -181,7 +182,7 @@ func serve() int {
 			}
 		}
 		rs.Goroutines = runtime.NumGoroutine()
-		rs.Ragged = ragged
+		rs.Ragged = ragged || atomic.LoadInt64(&w.CH.Ragged) > 0
 		if len(w.StoreErr) > 0 {
 			rs.StoreErr = w.StoreErr[0]
 		}
